@@ -36,9 +36,19 @@ pub fn type_to_tokens(ty: &ASN1Type) -> String {
             .join(" | "),
         ASN1Type::Choice(c) => format_choice_options(c),
         ASN1Type::Set(se) | ASN1Type::Sequence(se) => format_sequence_or_set_members(se),
-        ASN1Type::SetOf(s) | ASN1Type::SequenceOf(s) => type_to_tokens(&s.element_type) + "[]",
+        ASN1Type::SetOf(s) | ASN1Type::SequenceOf(s) => array_of(&type_to_tokens(&s.element_type)),
         ASN1Type::ElsewhereDeclaredType(e) => to_jer_identifier(&e.identifier),
         _ => String::from("any"),
+    }
+}
+
+/// Array type of `element`; a union element type is parenthesized, because `A | B[]` is
+/// `A | (B[])` in TypeScript.
+pub fn array_of(element: &str) -> String {
+    if element.contains(" | ") {
+        format!("({element})[]")
+    } else {
+        format!("{element}[]")
     }
 }
 
